@@ -27,12 +27,14 @@ func TestCheck(t *testing.T) {
 	ps := []sb{
 		{Case{Stores: []StoreSpec{s0, s1}, Lazy: true, Buf: 1}, 2},
 		{Case{Stores: []StoreSpec{s0, s1b}, Lazy: true, Buf: 2, Batch: 2}, 2},
+		{Case{Stores: []StoreSpec{s0, s1b}, Lazy: true, Buf: 1}, 1},
 		{Case{Stores: []StoreSpec{s0, s1}, Lazy: false}, 2},
 	}
 	if r.Thorough() {
 		ps = []sb{
 			{Case{Stores: []StoreSpec{s0, s1}, Lazy: true, Buf: 1}, 3},
 			{Case{Stores: []StoreSpec{s0, s1b}, Lazy: true, Buf: 2, Batch: 2}, 3},
+			{Case{Stores: []StoreSpec{s0, s1b}, Lazy: true, Buf: 1}, 2},
 			{Case{Stores: []StoreSpec{s0, s1}, Lazy: false}, 3},
 			{Case{Stores: []StoreSpec{s0, s1, s2}, Lazy: true, Buf: 1}, 2},
 			{Case{Stores: []StoreSpec{s0, s1b, s2}, Lazy: false, Batch: 2}, 2},
